@@ -45,40 +45,58 @@ THEOREMS = [
 ]
 TRUSTED = [
     "Model/PyFloat.lean as the meaning of CPython '%.*f', '%.*e', float(str), round(x) on finite doubles "
-    "(re-measured on every run by the `pyfloat` correspondence stream)",
+    "(re-measured on every run by the `pyfloat` correspondence stream; since the extension the parts the "
+    "theorems use are also *proved*: eParts_spec for '%.*e', rheDiv_err for '%.*f', toBits_mant for float() on "
+    "a mantissa)",
     "translator harness/translate/c12_nasfloat.py (ast only; cross-checked by the exact string correspondence)",
-    "correspondence harness harness/props/c12.py (exact comparison of fields, card text and rdcards lists)",
+    "correspondence harness harness/props/c12.py (exact comparison of fields, card text and rdcards lists; "
+    "the harness regex _FLD_RE as an independent reading of the emitted-field grammar)",
     "rdcards is modelled for return_var='list', no INCLUDE following, no kept comments, no tabs",
+    "the free-field writer `commaText` of the card theorems is a specification (pyyeti has no comma writer); the "
+    "harness writes the same form (_comma_text) and the reader is compared on it exactly",
 ]
 RULE = (
     "doubles: every decade 1e-323..1e308, both signs, a fixed mantissa grid (1, 4.99…, 5, 9.9…9 with 1..16 nines) "
     "with nextafter neighbours, seeded random mantissas, +-3 ulp neighbours of every branch bound of the "
     "translated tables and of every value that rounds to the next power of ten, zeros, subnormals, max double; "
-    "a case is one double compared on format_float8/16 and format_double16 (exact strings); non-trivial = "
-    "non-zero; distinct by bit pattern.  cards: seeded random cards of 0..60 fields over blank/str/int/float "
-    "with blank runs and trailing blanks, three writers, single- and multi-card files, comma forms; "
-    "distinct by the card text"
+    "a case is one double compared on format_float8/16 and format_double16 (stream format) and on "
+    "_format_scientific8/16 (stream sci), exact strings; every distinct emitted field is split by the Lean "
+    "recogniser fieldOf? and by the harness regex and the decimal it denotes is rounded and compared with "
+    "nas_sscanf (stream grammar); non-trivial = non-zero; distinct by bit pattern.  cards: seeded random cards "
+    "of 0..60 fields over blank/str/int/float with blank runs and trailing blanks, three writers, single- and "
+    "multi-card files, comma forms incl. first lines of every length 72..80 and beyond; distinct by the card text"
 )
 ASSUMPTIONS = [
     "string fields are Nastran names (letter first, alphanumeric, at most the field width) that nas_sscanf does "
     "not read as a number (INF/NAN/INFINITY are numbers to the reader and outside the quantifier)",
     "integer fields fit the field width",
-    "accuracy is claimed for 1e-300 <= |x| <= 1e300 (beyond, rounding to the field's digits can overflow to inf)",
+    "accuracy is claimed for 1e-300 <= |x| <= 1e300 (beyond, rounding to the field's digits can overflow to inf); "
+    "the Lean theorems cover all fractions with 1e-999 <= |x| < 1e999 (exponents of at most three digits)",
 ]
 PARTIAL = (
-    "proved at full strength: table_rows_ok (decide on the regenerated tables), fixed_branch_width (all "
-    "fractions / all rationals, including the rounding carry), carry_guard_sound, int/blank field round trip, "
-    "line_roundtrip (one physical line, any width). Partial: fixed_branch_accuracy_partial proves the half-unit "
-    "bound of the rounding step only (that strip/replace/nas_sscanf preserve the value of the printed digits is "
-    "checked by the exact correspondence and the oracle); card_line_roundtrip_partial covers small-field cards of "
-    "at most 8 fields before the reader's right-strip. Not proved (correspondence + oracle only): sci_width / "
-    "sci_accuracy / double16 for the scientific fall-backs and the small-magnitude mixed branch, "
-    "sscanf_parses_field for float fields, continuation lines with blank padding, large-field line structure, "
-    "card-name matching and the comma form of card_roundtrip"
+    "proved at full strength (all fractions, not only doubles): sscanf_parses_field / sscanf_parses_recognised "
+    "(grammar of emitted fields, d->e and sign-as-exponent rewriting); per branch of format_float8/16 the exact "
+    "text, width, read-back and accuracy: fixed_branch_width*, fixed_branch_accuracy (end to end through strip / "
+    "replace / nas_sscanf, |field-x| <= 1/2 10^-p), fixed_precision_maximal, sci_width_accuracy + sci_width + "
+    "sci_consts_ok for _format_scientific8/16 and format_double16 (two-stage bound (1/2 10^-P + 1/2 10^-q) 10^E), "
+    "small_branch_pos, last_branches, table_rows_ok, carry_guard_sound; cards: card_roundtrip_small / "
+    "card_roundtrip_large (any number of continuation lines, blank padding, trailing blanks, the * in column 73, "
+    "the even-line padding), card_roundtrip_comma (lines of any length) and card_fixed_comma_agree, "
+    "int/blank/str field round trips, card_fields_ok.  Still partial: (1) small_branch_neg_partial assumes "
+    "|x| > 1/2 10^-p (the one double between the literal 5e-7 / 5e-15 and its nearest double, where the code relies on "
+    "float(field1) == float('-0.') being false, is tied by correspondence only); (2) the dispatch of the if-chain "
+    "to the branch theorems (rowTest compares with the literal's nearest double) is not one theorem: it is "
+    "table_rows_ok (tiling of the decades, guards) + translator + exact correspondence on both sides of every "
+    "bound; (3) that the mixed branch picks the more precise alternative (float(field1) == float(field2)) is not "
+    "proved - each alternative has its own proved bound; (4) a comma-form writer does not exist in pyyeti: "
+    "card_roundtrip_comma is about the specification text commaText; card-name matching is proved for one-card "
+    "files (multi-card files, prefixes and foreign lines are correspondence only)"
 )
 MANIFEST = {
     "level_text": "proof",
-    "level_note": "Lean theorems over the generated decade tables and the card model; exact string correspondence",
+    "level_note": "Lean theorems per branch (exact text, width, read-back, accuracy over all fractions) and for "
+                  "cards (8/16/comma forms, any number of lines); the if-chain dispatch, multi-card files and the "
+                  "boundary double of the negative mixed branch are tied by translator + exact correspondence",
     "technique": "Lean 4 model + ast translator (NasFloatTables) + differential correspondence",
 }
 
